@@ -79,6 +79,7 @@ class Ctx:
         self.notes: list = []
         self.var_count = 0
         self.tol = 1e3 * float(np.finfo(real_t).eps)
+        self.worst_case: dict = {}
         self.prefer = "smt"  # which z3 engine to try first ("nlsat" for genuinely polynomial identities)
 
     # ---- inputs ---------------------------------------------------------------------
@@ -392,6 +393,13 @@ class Check:
                     inconclusive.append(f"{rec['scenario']} {rec['params']} claim {f['name']}: counterexample did not reproduce on the real code ({out.strip()[-200:]}); replay={rp}")
             if len(fams) > MAX_FAMILIES:
                 self.extra["counterexample_families_not_replayed"] = len(fams) - MAX_FAMILIES
+        wc_all: dict = {}
+        for rec in self.records:
+            for k, v in (rec.get("worst_case") or {}).items():
+                key = f"{k} [{rec['real_t']}]"
+                wc_all[key] = max(wc_all.get(key, 0.0), v)
+        if wc_all:
+            self.extra["tolerance_obligations_measured_worst_case"] = wc_all
         for e in self.errors:
             inconclusive.append(e)
         seen = set()
@@ -538,6 +546,7 @@ def _run_task(task, seed):
     rec["stats"] = smt.STATS.as_dict()
     rec["wall_s"] = round(time.time() - t0, 2)
     rec["notes"] = ctx.notes
+    rec["worst_case"] = ctx.worst_case
     return rec
 
 
@@ -641,3 +650,49 @@ def explore(ctx, fn, max_paths=64, tag="path"):
             ctx.hyps[:] = base_hyps
         results.append((tuple(state["taken"]), ret))
     return results
+
+
+def bound_vars(ctx, arr, lo=-1, hi=1):
+    """assume lo <= v <= hi for every cell (tolerance obligations quantify over a bounded box)"""
+    if ctx.sym:
+        for v in np.asarray(arr).reshape(-1):
+            ctx.hyps.append(S.And(v >= lo, v <= hi))
+    else:
+        a = np.asarray(arr)
+        if a.size and (a.min() < lo - 1e-12 or a.max() > hi + 1e-12):
+            raise ReplayInvalid("model outside the variable box")
+
+
+def close(ctx, name, impl, ref, tol):
+    """tolerance obligation |impl - ref| <= tol (absolute; inputs bounded by bound_vars)"""
+    if not ctx.sym:
+        if ctx.target is not None and name != ctx.target:
+            return
+        a, b = float(impl), float(ref)
+        bad = not (abs(a - b) <= tol)
+        if bad:
+            ctx.replay_result = (True, f"{name}: |{a!r} - {b!r}| > {tol}")
+        elif ctx.replay_result is None:
+            ctx.replay_result = (False, f"{name}: |{a!r} - {b!r}| <= {tol}")
+        return
+    d = S.lift(impl) - S.lift(ref)
+    if d is S.ZERO:
+        ctx._record(Claim(name, "unsat", trivial=True))
+        return
+    dd, c0 = d.lin()
+    if all(a.op == "v" for a in dd):
+        # affine in box-bounded variables: the exact worst case is sum|c| + |c0| (reported as margin, not deciding)
+        wc = float(sum(abs(c) for c in dd.values()) + abs(c0))
+        key = name.split("[")[0]
+        ctx.worst_case[key] = max(ctx.worst_case.get(key, 0.0), wc)
+    tol = S.lift(Fraction(tol).limit_denominator(10**30))
+    ctx.claim(name, S.And(d <= tol, -d <= tol), robust=[S.Or(d >= 10 * tol, -d >= 10 * tol)])
+
+
+def close_array(ctx, name, impl, ref, tol, cells=None):
+    impl_a = np.asarray(impl)
+    ref_a = np.broadcast_to(np.asarray(ref), impl_a.shape)
+    for idx in (cells if cells is not None else np.ndindex(*impl_a.shape)):
+        if ctx.sym and ctx.too_many_failures():
+            return
+        close(ctx, f"{name}[{','.join(map(str, idx))}]", impl_a[idx], ref_a[idx], tol)
